@@ -162,7 +162,7 @@ static void c10_unary(Context& cx, const Fn& f, mfn::Arbiter& arb)
     if (ft.tg.empty())
         return;
     const bool thorough = cx.opt.thorough();
-    const uint64_t stride = thorough ? 1 : (uint64_t)cx.opt.geti("stride", 251);
+    const uint64_t stride = (uint64_t)cx.opt.geti("stride", thorough ? 13 : 251); // --stride 1 is the exhaustive sweep (about 7 h on 16 cores)
     const uint64_t total = (1ull << 32);
     const uint64_t count = total / stride;
     const uint64_t lo = count * (uint64_t)cx.opt.worker / (uint64_t)cx.opt.nworkers, hi = count * (uint64_t)(cx.opt.worker + 1) / (uint64_t)cx.opt.nworkers;
